@@ -242,10 +242,14 @@ func (c *Client) buildChannel(ctx context.Context) (*ClientChannel, error) {
 		c.config.Node.Instance,
 	)
 	if err != nil {
+		// The channel is given up: its connection (and its receiver, when the server
+		// had announced the session as established on the way) is not left behind
+		_ = channel.Close()
 		return nil, fmt.Errorf("buildChannel: %w", err)
 	}
 
 	if ses.State != SessionStateEstablished {
+		_ = channel.Close()
 		return nil, fmt.Errorf("buildChannel: channel state is %v", ses.State)
 	}
 
